@@ -511,6 +511,13 @@ Definition names_ok (m : vmodule) : Prop := ∀ s, s ∈ module_nets m → good_
 (* every declared output is an input or has a driver (an output that only occurs as an operand may never become a node:
    `xor g(o, a, a)` cancels both operands) *)
 Definition outs_driven (bbs : list bbdef) (m : vmodule) : Prop := ∀ s, s ∈ decl_outputs m → s ∈ decl_inputs m ∨ s ∈ module_defs bbs m.
+(* ... which is a clause of the guard in_subset *)
+Lemma in_subset_outs_driven bbs m : in_subset bbs m = true → outs_driven bbs m.
+Proof.
+  unfold in_subset. rewrite !andb_true_iff. intros ((((((_ & _) & _) & _) & Ho) & _) & _) s Hs. apply bool_decide_eq_true in Ho.
+  assert (Hs' : s ∈ sset (decl_inputs m) ∪ sset (module_defs bbs m)) by (apply Ho; unfold sset; by apply elem_of_list_to_set).
+  unfold sset in Hs'. rewrite elem_of_union, !elem_of_list_to_set in Hs'. done.
+Qed.
 
 Lemma xdrivers_bbfree bbs m : bbfree m → xdrivers bbs m = drivers m.
 Proof.
@@ -554,10 +561,10 @@ Proof.
     rewrite Hso. eauto.
 Qed.
 
-Theorem read_succeeds rsv bbs m : ports_match m = true → in_subset bbs m = true → bbfree m → names_ok m → outs_driven bbs m →
+Theorem read_succeeds rsv bbs m : ports_match m = true → in_subset bbs m = true → bbfree m → names_ok m →
   (list_to_set (module_ids m) : gset string) ⊆ rsv → ∃ C, read rsv bbs m = Ok C.
 Proof.
-  intros Hpm Hs Hb Hnm Hod Hids. destruct (in_subset_den2 rsv bbs m Hs Hids) as (HNN & Hok & Hnd).
+  intros Hpm Hs Hb Hnm Hids. pose proof (in_subset_outs_driven bbs m Hs) as Hod. destruct (in_subset_den2 rsv bbs m Hs Hids) as (HNN & Hok & Hnd).
   pose proof (xdrivers_defs bbs m) as Edd. rewrite (xdrivers_bbfree bbs m Hb) in *.
   apply (read_succeeds_items rsv bbs m (list_to_set (module_nets m)) HNN); try done.
   - intros s Hs'. apply Hnm. by apply elem_of_list_to_set in Hs'.
@@ -591,13 +598,13 @@ Proof.
 Qed.
 
 (* read_denotes in full for blackbox-free modules with usable names: the read succeeds and the circuit denotes the module *)
-Theorem read_denotes_full_bbfree rsv bbs m : ports_match m = true → in_subset bbs m = true → bbfree m → names_ok m → outs_driven bbs m →
+Theorem read_denotes_full_bbfree rsv bbs m : ports_match m = true → in_subset bbs m = true → bbfree m → names_ok m →
   (list_to_set (module_ids m) : gset string) ⊆ rsv →
   ∃ C, read rsv bbs m = Ok C ∧ c_name C = m_name m ∧ c_bbs C = ∅ ∧
     inputs (c_g C) = list_to_set (decl_inputs m) ∧ outputs (c_g C) = list_to_set (decl_outputs m) ∧
     (∀ w, consistent (c_g C) w → ∃ x, sat_module m w x) ∧
     (∀ v x, sat_module m v x → ∃ w, consistent (c_g C) w ∧ ∀ n, n ∈ used_nets m → w n = v n).
 Proof.
-  intros Hpm Hs Hb Hnm Hod Hids. destruct (read_succeeds rsv bbs m Hpm Hs Hb Hnm Hod Hids) as [C HC]. exists C. split; [done|].
+  intros Hpm Hs Hb Hnm Hids. destruct (read_succeeds rsv bbs m Hpm Hs Hb Hnm Hids) as [C HC]. exists C. split; [done|].
   destruct (read_denotes rsv bbs m C Hs Hids HC) as (? & ? & ? & ? & ?). split; [done|]. split; [by eapply read_bbs_bbfree|]. done.
 Qed.
